@@ -117,11 +117,10 @@ Definition internal_tile_coord (g : grid) (o : req_origin) (x y l : Z) : option 
     end
   end.
 (* the four WMTS request classes and the origin attribute each one carries (mapproxy/request/wmts.py):
-   WMTS100TileRequest/WMTS100FeatureInfoRequest set origin = 'nw' in make_request, WMTS100RestTileRequest has
-   the class attribute, WMTS100RestFeatureInfoRequest inherits None from TileRequest *)
+   WMTS100TileRequest/WMTS100FeatureInfoRequest set origin = 'nw' in make_request, WMTS100RestTileRequest and
+   WMTS100RestFeatureInfoRequest have the class attribute origin = 'nw' *)
 Inductive wmts_request := KvpTile | KvpFeatureInfo | RestTile | RestFeatureInfo.
-Definition wmts_origin (r : wmts_request) : req_origin :=
-  match r with RestFeatureInfo => OriginNone | _ => OriginNW end.
+Definition wmts_origin (r : wmts_request) : req_origin := OriginNW.
 (* WMTSServer.featureinfo: bbox = tile_layer.tile_bbox(request); render(): the tile that is served *)
 Definition wmts_bbox (g : grid) (r : wmts_request) (col row l : Z) : option bbox :=
   match internal_tile_coord g (wmts_origin r) col row l with
